@@ -86,6 +86,11 @@ def build(p: Dict[str, Any]) -> Dict[str, Any]:
         imp["message_defs"] = {"MSG_IN": {"id": 1030, "fields": {"v": "int32", "w": "int16[2]"}}}
         root["struct_defs"]["HOLDER"] = {"m": "MSG_IN", "n": "int32"}
         root["message_defs"]["MSG_V"] = {"id": 1020, "fields": {"h": "HOLDER"}}
+    elif v == "struct_reuses_message":   # field-list reuse across kinds: a struct takes over the fields of a message of the imported file (and vice versa)
+        imp["message_defs"] = {"MSG_IN": {"id": 1030, "fields": {"v": "int32", "w": "int16[2]"}}}
+        root["struct_defs"]["REC_S"] = "MSG_IN"
+        root["message_defs"]["MSG_V"] = {"id": 1020, "fields": {"r": "REC_S", "n": "int32"}}
+        root["message_defs"]["MSG_W"] = {"id": 1021, "fields": "INNER"}
     elif v == "sections_reversed":       # the sections of every file written bottom-up: message_defs first, imports last
         root["__order__"] = "reversed"
         imp["__order__"] = "reversed"
